@@ -184,6 +184,13 @@ pub fn dump_container(path: &Path, plan: &Plan) -> Dump {
                     format!("pack/{id}/manifest_free"),
                     || {
                         let by_uuid = m.get_pack_free_data_uuid(info.uuid).map_err(|e| e.to_string())?.map(|b| b.to_vec());
+                        // the other by-uuid getters answer for the same pack
+                        if format!("{:?}", info.pack_kind) == "Content" && m.get_content_pack_info_uuid(info.uuid).map(|i| i.pack_id) != Some(info.pack_id) {
+                            return Err(format!("get_content_pack_info_uuid({}) does not give pack {}", info.uuid, id));
+                        }
+                        if m.get_pack_check_info(info.uuid).map_err(|e| format!("get_pack_check_info: {e}"))?.is_none() {
+                            return Err(format!("get_pack_check_info({}) = None for a listed pack", info.uuid));
+                        }
                         if format!("{:?}", info.pack_kind) == "Content" {
                             let by_id = m.get_pack_free_data(info.pack_id).map_err(|e| e.to_string())?.map(|b| b.to_vec());
                             if by_id != by_uuid {
